@@ -2,8 +2,10 @@
 # tools/run_all.sh [tier] : run every claimed check, print one summary line each
 cd "$(dirname "$0")/.."
 tier=${1:-quick}
+fail=0
 for id in C01 C02 C03 C04 C05 C06 C07 C08 C09 C10 C11 C12 C13 C14 C15 C16 C17; do
   s=$(date +%s); out=$(./check $id $tier 2>&1); rc=$?; e=$(date +%s)
   echo "$id rc=$rc $((e-s))s $(echo "$out" | tail -1)"
-  [ $rc -ne 0 ] && echo "$out" | grep -A1 "VIOLATION\|HARNESS\|VACUOUS" | head -6
+  if [ $rc -ne 0 ]; then fail=1; echo "$out" | grep -A1 "VIOLATION\|HARNESS\|VACUOUS" | head -6; fi
 done
+exit $fail
